@@ -35,6 +35,8 @@ def oracle_c01(cid, impl, m):
     no error, and (strict mode) the store conforms to the declared types."""
     if _hang(impl, m):
         return _hang(impl, m)
+    if "res" not in impl:
+        return None          # over the harness's storage-call budget (legitimately: the model needs that many too)
     if "res" not in m or m.get("ref") in (None, "bad"):
         return None
     if m.get("lim") != "0" or not m["res"].endswith("/none"):
@@ -55,6 +57,8 @@ def oracle_c02(cid, impl, m):
     answers as the same request (request depth 0) against a fresh engine whose global limit is the effective depth."""
     if _hang(impl, m):
         return _hang(impl, m)
+    if "res" not in impl:
+        return None          # over the harness's storage-call budget (legitimately: the model needs that many too)
     if "fres" in impl and impl.get("res") != impl["fres"]:
         return ("c02-clamp", f"request answered {impl.get('res')}, the same request against a fresh server whose global limit is the "
                              f"effective depth answers {impl['fres']}")
@@ -88,6 +92,8 @@ def oracle_c03(cid, impl, m):
     the sequential and (cres) the real concurrent checkgroup."""
     if _hang(impl, m):
         return _hang(impl, m)
+    if "res" not in impl:
+        return None          # over the harness's storage-call budget (legitimately: the model needs that many too)
     if "res" not in m or "res0" not in m:
         return None
     for key in ("res", "cres"):
@@ -110,6 +116,8 @@ def oracle_c11(cid, impl, m):
     to the declared types and a query on a declared relation: no schema error."""
     if _hang(impl, m):
         return _hang(impl, m)
+    if "res" not in impl:
+        return None          # over the harness's storage-call budget (legitimately: the model needs that many too)
     if "res" not in m or impl.get("opl") != "1":
         return None
     if m.get("conf") != "1" or m.get("qdecl") != "1":
@@ -150,6 +158,8 @@ def oracle_c15_wide(cid, impl, m):
     correspondence: calls)."""
     if _hang(impl, m):
         return _hang(impl, m)
+    if "res" not in impl:
+        return None          # over the harness's storage-call budget (legitimately: the model needs that many too)
     if "res" not in impl:
         return None
     return True
